@@ -254,10 +254,13 @@ func TestCheck(t *testing.T) {
 	// ---- Part C: shard sizes around every power of two (and around 500, where a fixed-size scratch buffer would end) ----
 	partC(r, pub, &committee)
 
+	// ---- Part D: every sequence of deliveries on one long-lived receiver stack (seq_test.go) ----
+	seqNontrivial := partD(r)
+
 	// ---- Part B: validator accepts honest units, rejects every single-field corruption ----
 	partB(r, distinct)
 
-	r.Set("distinct_nontrivial", int64(len(distinct)))
+	r.Set("distinct_nontrivial", int64(len(distinct))+seqNontrivial)
 	r.Set("rule", "cases = (data,parity,len,subset-mask[,local]) reconstructions + (committee size, publisher, receiver, unit, corruption) validations; "+
 		"non-trivial = subset neither empty nor full (something must be recovered or refused) or a corruption that changes the unit; "+
 		"part C: message lengths putting the shard / Merkle-leaf size at and around 32..1024 and 500: signed root == independent SHA-256-tagged reference root, proofs verify under the independent verifier, "+
